@@ -35,7 +35,16 @@ def scenario(sc):
                 sources[sid] = R.build_source(c)
             bid = st.get("backend", "b%d" % k)
             if bid not in backends:
-                _, backends[bid] = R.build_backend(c, src=sources[sid])
+                if st.get("input") is not None:
+                    # inject onto the files written by an earlier step of this scenario
+                    import setigen.voltage as V
+                    fb = V.PolyphaseFilterbank(num_taps=c["taps"], num_branches=c["nb"])
+                    fb.estimate_channelized_stds(factor=50, seed=33)
+                    backends[bid] = V.RawVoltageBackend.from_data(os.path.join(d, "r%d" % st["input"]), sources[sid],
+                                                                  digitizer=V.RealQuantizer(target_fwhm=32, num_bits=8), filterbank=fb,
+                                                                  start_chan=c.get("start_chan", 0), num_subblocks=c.get("num_subblocks", 32))
+                else:
+                    _, backends[bid] = R.build_backend(c, src=sources[sid])
             be = backends[bid]
             stem = os.path.join(d, "r%d" % k)
             dm = st.get("dict", "default")
@@ -47,7 +56,7 @@ def scenario(sc):
                 if dm not in dicts:
                     dicts[dm] = dict(st.get("cards", {}))
                 hd = dicts[dm]
-            R.record(be, stem, c, header_dict=hd)
+            R.record(be, stem, dict(c, num_blocks=None) if st.get("input") is not None else c, header_dict=hd)
             dg, info = digest_files(stem)
             out = dict(digest=dg, info=info, dict_after=(None if hd is None else {k2: repr(v) for k2, v in hd.items()}))
     return out
